@@ -15,6 +15,7 @@ import (
 	"net/http/httptest"
 	"os"
 	"path/filepath"
+	"sort"
 	"sync"
 	"sync/atomic"
 	"time"
@@ -35,7 +36,8 @@ type c13EpochFx struct {
 	Cids     []cid.Cid // every section
 	Slots    []uint64  // every block
 	Sigs     []solana.Signature
-	Pubkeys  []solana.PublicKey // every address mentioned by a transaction (sorted, deduplicated)
+	Pubkeys  []solana.PublicKey // every address mentioned by a transaction (deduplicated)
+	HotPks   []solana.PublicKey // the addresses mentioned most often (chains of several linked-log records when > 1000)
 	SecBound [][]int64          // per section: offsets of its length varint, its data and its end
 }
 
@@ -176,16 +178,22 @@ func c13DescribeEpoch(name string, fx *vfEpochFx) *c13EpochFx {
 	for _, b := range m.Blocks {
 		e.Slots = append(e.Slots, b.Slot)
 	}
-	seen := map[solana.PublicKey]bool{}
+	seen := map[solana.PublicKey]int{}
 	for _, tx := range m.AllTxs() {
 		e.Sigs = append(e.Sigs, tx.Sig)
 		for _, k := range tx.AllKeys() {
-			if !seen[k] {
-				seen[k] = true
+			if seen[k] == 0 {
 				e.Pubkeys = append(e.Pubkeys, k)
 			}
+			seen[k]++
 		}
 	}
+	hot := append([]solana.PublicKey(nil), e.Pubkeys...)
+	sort.SliceStable(hot, func(i, j int) bool { return seen[hot[i]] > seen[hot[j]] })
+	if len(hot) > 6 {
+		hot = hot[:6]
+	}
+	e.HotPks = hot
 	return e
 }
 
